@@ -15,12 +15,13 @@
   extracted from the live code (harness/extract/classes.py → PMC/Generated/ClassTable.lean) *is* `refTable`.
   "Syntactically a formula of M as documented" is `Fm.inLogic M` (PMC/Model/Syntax.lean).
 
-  Exact characterisations where the code is stricter than "TypeError outside the logic" requires (correspondence
-  check harness/validate_classes.py, 0 mismatches):
-  * `LTL.modelcheck` rejects every CTL-module object, also `CTL.A(CTL.X(p))` whose tree `A X p` is an LTL formula
-    (`LNot` builds `CTL.Not(<path formula>)`); LTL- and CTL*-module objects pass iff `A` over an LTL path formula;
-  * `CTLS.modelcheck` rejects every PL-module object, also `PL.AtomicProposition('p')` (`PL.Formula` is a base class
-    of `CTLS.Formula`, not a subclass; `CTL.modelcheck` casts such objects instead).
+  Exact characterisations (correspondence check harness/validate_classes.py, 0 mismatches):
+  * `CTL.modelcheck` casts an object that is not a `CTL.Formula` to CTL; passes iff the tree is a CTL state formula;
+  * `LTL.modelcheck` casts CTL- and CTL*-module objects to LTL first (so `CTL.A(CTL.X(p))`, whose tree `A X p` is an
+    LTL formula, is accepted); LTL-, CTL- and CTL*-module objects pass iff `A` over an LTL path formula; a PL-module
+    object is rejected (it is not a `CTLS.Formula`, hence not cast, and not a `CTLS.A`; no PL tree has the form `A g`);
+  * `CTLS.modelcheck` casts an object that is not a `CTLS.Formula` (every PL-module object: `PL.Formula` is a base
+    class of `CTLS.Formula`, not a subclass) to CTL*; passes iff the tree is a CTL* state formula.
   Outside the ranked trees (not expressible in `Fm`, reported by the validation script): no constructor except
   CTL/CTL* `A`/`E` checks the number of operands (`PL.Not('p','q')`, `CTLS.X()` build without error).
 -/
@@ -106,17 +107,17 @@ theorem guardCTL_rejects (Mobj : Logic) (f : Fm) (k : Bool) (hb : construct refT
 
 theorem guardLTL_eq (Mobj : Logic) (f : Fm) (k : Bool) (hb : construct refTable Mobj f = .ok ()) :
     guardLTL refTable Mobj f k =
-      if k && (Mobj != .CTL) && isAofLTLPath f then .ok () else .error .typeError := by
+      if k && (Mobj != .PL) && isAofLTLPath f then .ok () else .error .typeError := by
   rw [Classes.guardLTL_eq Mobj f k (construct_sound _ f hb)]
   cases f <;> rfl
 
 theorem guardLTL_passes_iff (Mobj : Logic) (f : Fm) (k : Bool) (hb : construct refTable Mobj f = .ok ()) :
-    guardLTL refTable Mobj f k = .ok () ↔ k = true ∧ Mobj ≠ .CTL ∧ ∃ g, f = .A g ∧ g.isLTLPath = true := by
+    guardLTL refTable Mobj f k = .ok () ↔ k = true ∧ Mobj ≠ .PL ∧ ∃ g, f = .A g ∧ g.isLTLPath = true := by
   rw [guardLTL_eq Mobj f k hb]
   cases k <;> cases Mobj <;> cases f <;> simp [isAofLTLPath]
 
 theorem guardLTL_rejects (Mobj : Logic) (f : Fm) (k : Bool) (hb : construct refTable Mobj f = .ok ())
-    (h : ¬ (k = true ∧ Mobj ≠ .CTL ∧ ∃ g, f = .A g ∧ g.isLTLPath = true)) :
+    (h : ¬ (k = true ∧ Mobj ≠ .PL ∧ ∃ g, f = .A g ∧ g.isLTLPath = true)) :
     guardLTL refTable Mobj f k = .error .typeError := by
   have h' := mt (guardLTL_passes_iff Mobj f k hb).mp h
   rw [guardLTL_eq Mobj f k hb] at h' ⊢
@@ -125,17 +126,16 @@ theorem guardLTL_rejects (Mobj : Logic) (f : Fm) (k : Bool) (hb : construct refT
   · rfl
 
 theorem guardCTLS_eq (Mobj : Logic) (f : Fm) (k : Bool) (hb : construct refTable Mobj f = .ok ()) :
-    guardCTLS refTable Mobj f k =
-      if k && (Mobj != .PL) && f.isCTLSState then .ok () else .error .typeError :=
+    guardCTLS refTable Mobj f k = if k && f.isCTLSState then .ok () else .error .typeError :=
   Classes.guardCTLS_eq Mobj f k (construct_sound _ f hb)
 
 theorem guardCTLS_passes_iff (Mobj : Logic) (f : Fm) (k : Bool) (hb : construct refTable Mobj f = .ok ()) :
-    guardCTLS refTable Mobj f k = .ok () ↔ k = true ∧ Mobj ≠ .PL ∧ f.isCTLSState = true := by
+    guardCTLS refTable Mobj f k = .ok () ↔ k = true ∧ f.isCTLSState = true := by
   rw [guardCTLS_eq Mobj f k hb]
-  cases k <;> cases Mobj <;> cases f.isCTLSState <;> simp
+  cases k <;> cases f.isCTLSState <;> simp
 
 theorem guardCTLS_rejects (Mobj : Logic) (f : Fm) (k : Bool) (hb : construct refTable Mobj f = .ok ())
-    (h : ¬ (k = true ∧ Mobj ≠ .PL ∧ f.isCTLSState = true)) : guardCTLS refTable Mobj f k = .error .typeError := by
+    (h : ¬ (k = true ∧ f.isCTLSState = true)) : guardCTLS refTable Mobj f k = .error .typeError := by
   have h' := mt (guardCTLS_passes_iff Mobj f k hb).mp h
   rw [guardCTLS_eq Mobj f k hb] at h' ⊢
   split
@@ -165,8 +165,8 @@ theorem guards_sound (Mobj : Logic) (f : Fm) (k : Bool) (hb : construct refTable
   · split <;> simp
   · split <;> simp
   · cases k <;> cases f.isCTLState <;> simp
-  · cases k <;> cases (Mobj != Logic.CTL) <;> cases isAofLTLPath f <;> simp
-  · cases k <;> cases (Mobj != Logic.PL) <;> cases f.isCTLSState <;> simp
+  · cases k <;> cases (Mobj != Logic.PL) <;> cases isAofLTLPath f <;> simp
+  · cases k <;> cases f.isCTLSState <;> simp
 
 /-! ### non-vacuity -/
 
@@ -189,14 +189,25 @@ example : constructMixed refTable .LTL "E" [(.LTL, .ap "p")] = .error .attribute
 example : guardCTL refTable .LTL (.A (.X (.ap "p"))) true = .ok () := by decide
 example : guardCTL refTable .CTL (.X (.ap "p")) true = .error .typeError := by decide
 example : guardCTL refTable .PL (.ap "p") true = .ok () := by decide
-example : guardCTLS refTable .PL (.ap "p") true = .error .typeError := by decide
+example : guardCTLS refTable .PL (.ap "p") true = .ok () := by decide
+example : guardCTLS refTable .PL (.imp (.ap "p") (.or [.tt, .ap "q"])) false = .error .typeError := by decide
 example : guardCTLS refTable .CTLS (.and [.A (.X (.ap "p")), .ap "q"]) true = .ok () := by decide
 example : guardCTLS refTable .CTLS (.X (.ap "p")) true = .error .typeError := by decide
 example : guardCTL refTable .CTL (.A (.X (.ap "p"))) false = .error .typeError := by decide
-/-- the same tree `A X p`: accepted from the LTL and CTL* modules, rejected from the CTL module -/
+/-- the same tree `A X p`: accepted from the LTL, CTL* and CTL modules -/
 example : guardLTL refTable .LTL (.A (.X (.ap "p"))) true = .ok () ∧
     guardLTL refTable .CTLS (.A (.X (.ap "p"))) true = .ok () ∧
-    guardLTL refTable .CTL (.A (.X (.ap "p"))) true = .error .typeError := by
+    guardLTL refTable .CTL (.A (.X (.ap "p"))) true = .ok () := by
+  refine ⟨?_, ?_, ?_⟩
+  · rw [guardLTL_eq _ _ _ (by decide)]; rfl
+  · rw [guardLTL_eq _ _ _ (by decide)]; rfl
+  · rw [guardLTL_eq _ _ _ (by decide)]; rfl
+
+/-- a PL-module object, a CTL* state formula that is not an LTL formula, a CTL formula that is not `A` over an LTL path
+    formula: rejected by `LTL.modelcheck` -/
+example : guardLTL refTable .PL (.ap "p") true = .error .typeError ∧
+    guardLTL refTable .CTLS (.A (.X (.E (.X (.ap "p"))))) true = .error .typeError ∧
+    guardLTL refTable .CTL (.A (.X (.A (.X (.ap "p"))))) true = .error .typeError := by
   refine ⟨?_, ?_, ?_⟩
   · rw [guardLTL_eq _ _ _ (by decide)]; rfl
   · rw [guardLTL_eq _ _ _ (by decide)]; rfl
